@@ -18,7 +18,7 @@ LEVEL_TEXT = (
     " location is built from byte offsets; the file library stores exactly the text the parser was given (before stripping);"
     " every span in the grammar is built from the production's own @L/@R markers in order; every node gets its file id;"
     " synthesised statements reuse a source span; explicit ranges come from LALRPOP tokens; SARIF regions use the renderer's"
-    " lookup; one file table (only FileLibrary builds it, the terminal writer resolves labels against the library it is given)."
+    " lookup; one file table (only FileLibrary builds it, the terminal writer resolves labels against the library it is given). The statements a declaration with initialisers expands to carry the location of the declaration (evaluated)."
 )
 NOT_DECIDED = "that the text under a label is the construct the message is about (semantic); column units of third-party renderers."
 ENGINE = "mirfacts+astq"
